@@ -458,6 +458,12 @@ fn numbers_family(rep: &mut Report, tier: Tier) {
                 t.nontrivial(&s);
                 t.outcome("number:14..18 significant digits, last digit -1/0/+1");
             }
+            if x.to_bits() % 8 == 0 {
+                for s in canon::sticky_spellings(x) {
+                    number_case(&s, t);
+                    t.outcome("number:midpoint + zeros + 1 (sticky digit far beyond every precision)");
+                }
+            }
         }
     });
     rep.absorb(t);
@@ -825,7 +831,13 @@ fn c10_documents(rep: &mut Report, tier: Tier) {
         let t = explore::par_tally(doubles.chunks(64).map(|c| c.to_vec()).collect(), |chunk, t| {
             for x in chunk {
                 let mut classes: std::collections::HashMap<u64, (String, String)> = std::collections::HashMap::new();
-                for sp in medium_spellings(x) {
+                let mut all_spellings = medium_spellings(x);
+                if x.to_bits() % 8 == 0 && x > 0.0 {
+                    // just above the midpoint below x: the same double as x's own spellings
+                    all_spellings.extend(canon::sticky_spellings(f64::from_bits(x.to_bits() - 1)));
+                    all_spellings.extend(long_spellings(x).into_iter().take(1));
+                }
+                for sp in all_spellings {
                     let y: f64 = match sp.parse() {
                         Ok(y) => y,
                         Err(_) => continue,
